@@ -99,6 +99,10 @@ func (e *Env) eval(x *SExpr) Value {
 		base := e.eval(x.Args[0])
 		s := e.ex.specs.ghostSort(x.Name)
 		t := Select(e.cur.heapArr("#"+x.Name, s), identOf(base))
+		if x.Name == "pos" {
+			// a stream position never exceeds the (finite) number of bytes the stream will deliver
+			e.live.assume(And(Le(Int(0), t), Le(t, UF("streamlen", SInt, identOf(base)))))
+		}
 		if x.Name == "blen" {
 			e.live.assume(And(Le(Int(0), t), Lt(t, IntB(pow2[32]))))
 		}
@@ -557,6 +561,9 @@ func (e *Env) evalCall(x *SExpr) Value {
 		need(1)
 		v := arg(0)
 		return Value{T: errorType, L: []*Term{UF("unwrap.tag", SInt, v.L[0], v.L[1]), UF("unwrap.val", SInt, v.L[0], v.L[1])}}
+	case "streamlen":
+		need(1)
+		return specInt(UF("streamlen", SInt, identOf(arg(0))))
 	case "nilerr":
 		need(0)
 		return Value{T: errorType, L: []*Term{Int(0), Int(0)}}
